@@ -33,6 +33,10 @@ def generate(rng, tier, rep):
                                      {'body': 'error', 'cleanups': ['error', 'fail']}, {'setUp': 'error', 'cleanups': ['error']},
                                      {'body': 'exit', 'tearDown': 'fail'}, {'xf': True, 'tearDown': 'error'},
                                      {'subs': ['fail', 'ok'], 'redirect_sub': True}, {'subs': ['error'], 'redirect_sub': True, 'body': 'fail'}]))
+        for T in c['tests']:
+            if rng.random() < 0.2 and not T.get('deco_skip'):
+                # arbitrary bytes through sys.stdout.buffer (the capture stream has a .buffer too)
+                T['writes'] = {'body': [['stdout.badbytes', 'raw bytes follow ']]}
         cases.append(c)
     for c in cases:
         count_dist(rep, c)
